@@ -1,2 +1,5 @@
 import FlowCalModel.Generated
+import FlowCalModel.Py
 import FlowCalModel.Text
+import FlowCalModel.Data
+import FlowCalModel.File
